@@ -47,6 +47,20 @@ def generate(rng, tier):
             sup = [lo + 3, lo + 3]                 # an empty support segment
         cases.append({"k": "disc", "recs": recs, "sup": sup, "dur": dur, "step": step, "labels": lab, "duration": duration,
                       "as_window": dur != step or rng.random() < 0.3})
+    # collision families: a support that cuts a long track of one label down to exactly a segment that carries another
+    # label under the same track name; both labels must still be marked on the frames well inside the support
+    import itertools
+    for (u, e), (da, db), tr, order, step, lab in itertools.product(
+            [(20, 36), (8, 40)], [(10, 12), (5, 0), (0, 8)], ["_", 0], (0, 1), (1, 2, 4), [None, ["a", 0], [0, "zz", "a"]]):
+        if tier != "thorough" and (u + da + order + step) % 3 == 0:
+            continue
+        inner = [[u, e], tr, 0]
+        outer = [[u - da, e + db], tr, "a"]
+        recs = [outer, inner] if order == 0 else [inner, outer]
+        if rng.random() < 0.5:
+            recs.append([[e + 4, e + 14], "x", rng.choice(["a", 0])])
+        cases.append({"k": "disc", "recs": recs, "sup": [u, e] if rng.random() < 0.7 else [u, e + 6], "dur": step, "step": step,
+                      "labels": lab, "duration": None, "as_window": rng.random() < 0.5})
     for _ in range(n):
         labels = LABELS[: rng.randrange(1, 4)]
         step = rng.choice([1, 2, 4])
